@@ -1,6 +1,7 @@
 import SdJwt.Lemmas.Strip
 import SdJwt.Lemmas.Total
 import SdJwt.Lemmas.RestoreAll
+import SdJwt.Lemmas.Complete
 /-!
 # C08 — conformant SD-JWTs from other issuers are processed as the specification says
 
@@ -81,3 +82,14 @@ theorem C08_rounds_total (T : MJ) (L : List Disc) (inv : TreeInv T) (hok : ∀ d
     ∃ c ps, rounds L.length T.payload L [] = .ok (c, ps) ∧
       removeAll c = T.project (fun h => L.any (fun d => d.digest = h)) :=
   rounds_project T L inv hok hdist
+
+/-- …and they ARE accepted: every conformant SD-JWT of any issuer, its disclosures presented in
+any order, any subset of them, is accepted and processed as the specification says -/
+theorem C08_accepted (env : Env) (T : MJ) (strs : List String) (inv : TreeInv T)
+    (hdec : ∀ s ∈ strs, ∃ d, fromBase64 env s = .ok d)
+    (hnd : (strs.map env.hash).Nodup)
+    (hacc : ∀ s ∈ strs, ∀ d, fromBase64 env s = .ok d →
+      DOk T d ∧ ∃ x, (d.digest, x) ∈ T.hiddenE ∧ d.value = x.payload) :
+    ∃ c ps, restoreAll env T.payload strs = .ok (c, ps) ∧
+      removeAll c = T.project (fun h => strs.any (fun s => env.hash s = h)) :=
+  restoreAll_complete env T strs inv hdec hnd hacc
